@@ -157,16 +157,19 @@ def user_seq_stream(res, rng, n):
             self.busy.put(1 if self.state != 0 else 0)
 
     class Stopper(py4hw.Logic):
-        def __init__(self, parent, name, a, cnt, stops, simref, noisy):
+        def __init__(self, parent, name, a, cnt, stops, simref, noisy, peek=False):
             super().__init__(parent, name)
             self.a = self.addIn('a', a)
             self.cnt = self.addOut('cnt', cnt)
             self.count, self.stops, self.simref, self.noisy, self.fired = 0, set(stops), simref, noisy, 0
+            self.peek, self.hwref, self.seen_clks = peek, parent, 0
 
         def clock(self):
             self.count += 1
             if self.noisy:
                 self.cnt.prepare(self.count + self.a.get())
+            if self.peek:
+                self.seen_clks = self.hwref.getSimulator().total_clks     # a monitor that looks up the simulator during the edge
             if self.count in self.stops:
                 self.fired += 1
                 self.simref[0].stop()          # request to stop after this edge
@@ -189,7 +192,7 @@ def user_seq_stream(res, rng, n):
             py4hw.Reg(hw, f'r{k}', prev, q, enable=busy if spec['en'][k] else None)
             prev = q
         cap = StreamCapture(hw, 'cap', prev)
-        stp = Stopper(hw, 'stp', qs[0], cnt, spec['stops'], simref, spec['noisy'])
+        stp = Stopper(hw, 'stp', qs[0], cnt, spec['stops'], simref, spec['noisy'], peek=spec.get('peek', False))
         sim = hw.getSimulator()
         simref[0] = sim
         return hw, sim, [code, busy, cnt] + qs, cap, stp
@@ -227,7 +230,7 @@ def user_seq_stream(res, rng, n):
                     en=[r.chance(2, 3) for _ in range(chain)],
                     go_seq=[] if r.chance(1, 2) else [r.randint(0, 1) for _ in range(r.randint(1, 5))],
                     stops=sorted({r.randint(1, N) for _ in range(r.choice([0, 1, 2, 3]))}),
-                    noisy=r.chance(1, 3))
+                    noisy=r.chance(1, 3), peek=r.fork('peek').chance(1, 2))
         splits = [[N]]
         for _ in range(3):
             rest, sp = N, []
@@ -239,7 +242,7 @@ def user_seq_stream(res, rng, n):
         try:
             with contextlib.redirect_stdout(io.StringIO()):
                 # reference: single-cycle calls and a breakpoint block that never fires
-                ref_marks, ref_cap, ref_clks, ref_seen, _ = run(dict(spec, stops=[]), [1] * N)
+                ref_marks, ref_cap, ref_clks, ref_seen, _ = run(dict(spec, stops=[], peek=False), [1] * N)
                 outs = [(sp, run(dict(spec), sp)) for sp in splits]
         except Exception as e:
             res.hist('simulation_errors', f'userseq:{type(e).__name__}:{str(e)[:40]}')
